@@ -271,7 +271,7 @@ func confirms(c ReplayCase, r NativeResult) bool {
 	case c.Outcome == "panic":
 		return strings.HasPrefix(r.Outcome, "panic:")
 	case c.Outcome == "budget":
-		return strings.HasPrefix(r.Outcome, "hang") || strings.HasPrefix(r.Outcome, "crash")
+		return strings.HasPrefix(r.Outcome, "hang") || strings.HasPrefix(r.Outcome, "crash") || strings.HasPrefix(r.Outcome, "assert:allocation budget")
 	}
 	return false
 }
